@@ -201,12 +201,12 @@ func judge(r *ev.Run, c *ev.Case, rec caseRec, bundle []string, clientCert, clie
 			return &proto.SSHKey{Key: text}, nil
 		})
 	}
-	signer, err := crypki.NewSigner(crypki.SignerConfig{TLSClientKeyFile: clientKey, TLSClientCertFile: clientCert, TLSCACertFiles: bundle, CrypkiEndpoints: list, CrypkiPort: uint(port), Retries: 1, PerTryTimeout: 2 * time.Second})
+	signer, err := crypki.NewSigner(crypki.SignerConfig{TLSClientKeyFile: clientKey, TLSClientCertFile: clientCert, TLSCACertFiles: bundle, CrypkiEndpoints: list, CrypkiPort: uint(port), Retries: 1, PerTryTimeout: 10 * time.Second})
 	if err != nil {
 		r.Violation(c, "signer-construction-fails", err.Error(), rec)
 		return
 	}
-	ctx, cancel := context.WithTimeout(context.Background(), 30*time.Second)
+	ctx, cancel := context.WithTimeout(context.Background(), 90*time.Second)
 	defer cancel()
 	certs, _, serr := signer.Sign(ctx, &proto.SSHCertificateSigningRequest{KeyMeta: &proto.KeyMeta{Identifier: "x"}, Principals: []string{"a"}, PublicKey: "k", Validity: 60})
 	rec.Result = fmt.Sprintf("certs=%d err=%v", len(certs), serr)
